@@ -29,6 +29,9 @@ import json
 import os
 import sys
 
+sys.path.insert(0, os.path.dirname(os.path.abspath(__file__)))
+import kernels_C06 as KC  # noqa: E402
+
 REPO = os.environ.get("VERIF_REPO", "/repo")
 SRC = os.path.join(REPO, "src", "pyunicorn")
 
@@ -41,6 +44,19 @@ VIEW_FUNCS = {"np.asarray", "np.ascontiguousarray", "np.ravel", "np.reshape", "n
 OWNED = {"data", "grid", "rp_x", "rp_y", "crp_xy", "self.data", "self.grid", "self.rp_x",
          "self.rp_y", "self.crp_xy"}
 INPLACE_METHODS = {"sort", "fill", "resize", "itemset", "partition", "byteswap"}
+# numpy functions whose result may share memory with their first argument
+NP_VIEW = {"asarray", "ascontiguousarray", "asfortranarray", "asanyarray", "asfarray", "ravel",
+           "reshape", "transpose", "atleast_1d", "atleast_2d", "atleast_3d", "squeeze", "require",
+           "broadcast_to", "broadcast_arrays", "real", "imag", "diagonal", "expand_dims",
+           "swapaxes", "moveaxis", "rollaxis", "flip", "fliplr", "flipud", "rot90", "split",
+           "array_split", "hsplit", "vsplit", "dsplit", "nan_to_num", "as_strided",
+           "sliding_window_view", "frombuffer", "from_dlpack", "asmatrix", "mat"}
+NP_MODS = {"np", "numpy", "sp", "scipy", "linalg", "stats", "fft", "special", "sparse", "rd",
+           "random"}
+# constructors of new Python values
+FRESH_BUILTINS = {"list", "dict", "set", "tuple", "range", "sorted", "zip", "enumerate", "int",
+                  "float", "len", "sum", "abs", "min", "max", "round", "str", "bool"}
+TO_CY_FRESH = [True]          # set by main() from the text of core/_ext/types.py
 
 
 def parse_all():
@@ -79,6 +95,11 @@ class Pass:
                 self.taint[a] = ("arg", a)
         self.edits = []         # (lineno, target kind, target name, how, index text, value text)
         self.defs = {}          # name -> source text of its defining expression
+        self.fresh = set()      # local names positively known to hold a new object
+        self.field_alias = {}   # self.<attr> assigned a shared object in this function
+        self.field_inits = []   # (line, attr, taint or None, positively fresh?) of `self.attr = e`
+        self.kernels = {}       # local name -> kernel record (set by the caller)
+        self.kcalls = []        # kernel call sites with the provenance of every array argument
 
     def origin(self, e):
         """taint of an expression (None = fresh)"""
@@ -86,7 +107,9 @@ class Pass:
             return self.taint.get(e.id)
         if isinstance(e, ast.Attribute):
             if isinstance(e.value, ast.Name) and e.value.id == self.selfname:
-                return ("field", e.attr)
+                # a field that was bound, in this function, to a caller argument / cached result
+                # *is* that object
+                return self.field_alias.get(e.attr, ("field", e.attr))
             if e.attr in VIEW_ATTRS:
                 return self.origin(e.value)
             return None
@@ -115,10 +138,72 @@ class Pass:
                     return ("result", ast.unparse(base).replace("self.", "") + "." + m)
                 if m in VIEW_CALLS:
                     return self.origin(base)
+                if m == "astype" and any(k.arg == "copy" and not (
+                        isinstance(k.value, ast.Constant) and k.value.value is True)
+                        for k in e.keywords):
+                    return self.origin(base)           # astype(.., copy=False) may alias
+                if m == "to_cy" or fn == "to_cy":
+                    pass
             if fn in VIEW_FUNCS and e.args:
                 return self.origin(e.args[0])
+            if fn in ("np.array", "numpy.array") and e.args and any(
+                    k.arg == "copy" and not (isinstance(k.value, ast.Constant)
+                                             and k.value.value is True) for k in e.keywords):
+                return self.origin(e.args[0])
+            if fn == "to_cy" and e.args and not TO_CY_FRESH[0]:
+                return self.origin(e.args[0])
             return None
+        if isinstance(e, ast.IfExp):
+            return self.origin(e.body) or self.origin(e.orelse)
         return None
+
+    def is_fresh(self, e):
+        """positively a new object (never: unknown)"""
+        if self.origin(e) is not None:
+            return False
+        if isinstance(e, ast.Name):
+            return e.id in self.fresh
+        if isinstance(e, (ast.List, ast.Dict, ast.Set, ast.ListComp, ast.DictComp, ast.SetComp,
+                          ast.Constant, ast.BinOp, ast.UnaryOp, ast.Compare, ast.BoolOp,
+                          ast.JoinedStr)):
+            return True
+        if isinstance(e, ast.Tuple):
+            return all(self.is_fresh(x) for x in e.elts)
+        if isinstance(e, ast.IfExp):
+            return self.is_fresh(e.body) and self.is_fresh(e.orelse)
+        if isinstance(e, ast.Attribute) and e.attr in VIEW_ATTRS:
+            return self.is_fresh(e.value)
+        if isinstance(e, ast.Subscript):
+            return self.is_fresh(e.value)
+        if isinstance(e, ast.Call):
+            fn = ast.unparse(e.func)
+            if fn == "to_cy":
+                return TO_CY_FRESH[0]
+            if isinstance(e.func, ast.Name):
+                return fn in FRESH_BUILTINS or fn[:1].isupper()
+            if isinstance(e.func, ast.Attribute):
+                m, base = e.func.attr, e.func.value
+                chain = base
+                while isinstance(chain, ast.Attribute):
+                    chain = chain.value
+                root = chain.id if isinstance(chain, ast.Name) else ""
+                if root in NP_MODS:
+                    if m in NP_VIEW:
+                        return bool(e.args) and self.is_fresh(e.args[0])
+                    if m == "array":
+                        return not any(k.arg == "copy" for k in e.keywords) or \
+                            (bool(e.args) and self.is_fresh(e.args[0]))
+                    return True
+                if m in ("copy", "flatten", "tolist", "nonzero", "sum", "mean", "std", "cumsum",
+                         "argsort", "round", "conj", "dot", "toarray", "todense", "tocsc", "tocsr",
+                         "max", "min", "any", "all", "repeat", "take", "clip", "prod", "var",
+                         "argmax", "argmin", "astype"):
+                    if m == "astype" and any(k.arg == "copy" for k in e.keywords):
+                        return self.is_fresh(base)
+                    return True
+                if m in VIEW_CALLS:
+                    return self.is_fresh(base)
+        return False
 
     def record(self, node, target_expr, how, index="", value=""):
         o = self.origin(target_expr)
@@ -161,6 +246,15 @@ class Pass:
             for t in st.targets:
                 if isinstance(t, ast.Subscript):
                     self.record(st, t.value, "delitem", ast.unparse(t.slice))
+        elif isinstance(st, ast.Return) and st.value is not None:
+            self.scan_calls(st, st.value)
+        if isinstance(st, (ast.If, ast.While)):
+            self.scan_calls(st, st.test)
+        elif isinstance(st, ast.For):
+            self.scan_calls(st, st.iter)
+        elif isinstance(st, ast.With):
+            for it in st.items:
+                self.scan_calls(st, it.context_expr)
         # nested blocks
         for field in ("body", "orelse", "finalbody", "handlers"):
             sub = getattr(st, field, None)
@@ -172,21 +266,32 @@ class Pass:
                         self.visit_block(s.body)
         if isinstance(st, ast.For) and isinstance(st.target, ast.Name):
             self.taint.pop(st.target.id, None)
+            self.fresh.discard(st.target.id)
 
     def assign(self, st, target, value):
         if isinstance(target, ast.Name):
             # calls nested in the right-hand side act before the name is rebound
             self.scan_calls(st, value)
             o = self.origin(value)
+            fr = self.is_fresh(value)
             if o is not None:
                 self.taint[target.id] = o
             else:
                 self.taint.pop(target.id, None)
+            (self.fresh.add if fr else self.fresh.discard)(target.id)
             self.defs[target.id] = ast.unparse(value)
         elif isinstance(target, ast.Subscript):
             self.record(st, target.value, "setitem", ast.unparse(target.slice), ast.unparse(value))
             self.scan_calls(st, value)
         elif isinstance(target, ast.Attribute):
+            if isinstance(target.value, ast.Name) and target.value.id == self.selfname:
+                o = self.origin(value)
+                self.field_inits.append((st.lineno, target.attr, o, self.is_fresh(value),
+                                         ast.unparse(value)))
+                if o is not None and o[0] in ("arg", "result"):
+                    self.field_alias[target.attr] = o
+                else:
+                    self.field_alias.pop(target.attr, None)
             if target.attr in ("shape", "dtype", "flags") and not (
                     isinstance(target.value, ast.Name) and target.value.id == self.selfname):
                 self.record(st, target.value, "set-" + target.attr, "", ast.unparse(value))
@@ -195,6 +300,7 @@ class Pass:
             for el in target.elts:
                 if isinstance(el, ast.Name):
                     self.taint.pop(el.id, None)
+                    self.fresh.discard(el.id)
                 elif isinstance(el, ast.Subscript):
                     self.record(st, el.value, "setitem", ast.unparse(el.slice), "?")
             self.scan_calls(st, value)
@@ -217,6 +323,46 @@ class Pass:
         if name in INPLACE_FUNCS and call.args:
             val = ast.unparse(call.args[1]) if len(call.args) > 1 else ""
             self.record(st, call.args[0], "call-" + name, "", val)
+        if name == "partial" and call.args and isinstance(call.args[0], ast.Name) \
+                and call.args[0].id in self.kernels:
+            # functools.partial(kernel, a, b, ..): the bound arguments are the leading parameters
+            inner = ast.Call(func=call.args[0], args=call.args[1:], keywords=call.keywords)
+            inner.lineno = call.lineno
+            self._partials = getattr(self, "_partials", {})
+            inner = self._partials.setdefault(id(call), inner)
+            n0 = len(self.kcalls)
+            self.call_effect(st, inner)
+            for c in self.kcalls[n0:]:
+                c["via"] = "partial"
+            return
+        if isinstance(fn, ast.Name) and name in self.kernels:
+            key, k = self.kernels[name]
+            if any(id(call) == c["_id"] for c in self.kcalls):
+                return
+            args = []
+            for i, pr in enumerate(k["params"]):
+                if not pr["array"]:
+                    continue
+                expr = call.args[i] if i < len(call.args) and not isinstance(
+                    call.args[i], ast.Starred) else None
+                for kw in call.keywords:
+                    if kw.arg == pr["name"]:
+                        expr = kw.value
+                if expr is None:
+                    args.append({"param": pr["name"], "prov": "unknown", "src": "", "expr": "?"})
+                    continue
+                o = self.origin(expr)
+                if o is not None:
+                    prov, srcname = o
+                elif self.is_fresh(expr):
+                    prov, srcname = "fresh", ""
+                else:
+                    prov, srcname = "unknown", ""
+                args.append({"param": pr["name"], "prov": prov, "src": srcname,
+                             "expr": ast.unparse(expr)})
+                if pr["written"]:
+                    self.record(st, expr, "kernel-" + name)
+            self.kcalls.append({"_id": id(call), "line": call.lineno, "kernel": key, "args": args})
 
     def classify(self):
         """pair edits with restores; return list of edit records with a verdict"""
@@ -254,6 +400,25 @@ class Pass:
         return out
 
 
+def to_cy_copies(mods):
+    """`to_cy` of core/_ext/types.py returns a new array iff its astype call says copy=True (or
+    leaves the default); read from the source so that a change to copy=False is seen"""
+    tree = mods.get(os.path.join("core", "_ext", "types.py"))
+    if tree is None:
+        return False
+    for n in ast.walk(tree):
+        if isinstance(n, ast.FunctionDef) and n.name == "to_cy":
+            rets = [r for r in ast.walk(n) if isinstance(r, ast.Return)]
+            if len(rets) != 1 or not isinstance(rets[0].value, ast.Call):
+                return False
+            c = rets[0].value
+            if not (isinstance(c.func, ast.Attribute) and c.func.attr == "astype"):
+                return False
+            return all(k.arg != "copy" or (isinstance(k.value, ast.Constant) and k.value.value is True)
+                       for k in c.keywords)
+    return False
+
+
 def main():
     out_path = sys.argv[1]
     cfg = json.load(open(os.path.join(os.path.dirname(os.path.abspath(__file__)), "fields_C06.json")))
@@ -269,14 +434,30 @@ def main():
                         funcs.append((mod, node.name, n, "staticmethod" not in decos))
             elif isinstance(node, ast.FunctionDef):
                 funcs.append((mod, "", node, False))
+    # compiled kernels: write sets read from the .pyx / .c text
+    kernels, cfuncs = KC.all_kernels(SRC)
+    TO_CY_FRESH[0] = to_cy_copies(mods)
+    imported = {mod: {loc: (key, kernels[key]) for loc, key in
+                      KC.imported_kernels(tree, mod.split(os.sep)[0], kernels).items()}
+                for mod, tree in mods.items()}
     # pass 1: every function's own edits
     per_func = {}
+    kcalls, finits = [], []
     for mod, cname, f, is_method in funcs:
         doc = (ast.get_docstring(f) or "").lower()
         documented = "in place" in doc or "in-place" in doc or "inplace" in doc
         p = Pass(f, cached, is_method, documented)
+        p.kernels = imported.get(mod, {})
         recs = p.run()
         per_func[(mod, cname, f.name)] = (f, is_method, recs)
+        for c in p.kcalls:
+            c = {k: v for k, v in c.items() if k != "_id"}
+            c.update(module=mod, cls=cname, func=f.name)
+            kcalls.append(c)
+        for line, attr, o, fr, expr in p.field_inits:
+            finits.append({"module": mod, "cls": cname, "func": f.name, "line": line, "field": attr,
+                           "prov": o[0] if o else ("fresh" if fr else "unknown"),
+                           "src": o[1] if o else "", "expr": expr})
     # summaries: parameter positions a function edits without restoring (by function name)
     arg_edit = {}
     for (mod, cname, fname), (f, is_method, recs) in per_func.items():
@@ -330,7 +511,7 @@ def main():
         if r["kind"] == "field" and is_mut:
             continue                      # an object may rewrite its own fields in a mutator
         if r["kind"] == "arg":
-            if r["func"].startswith("_") or is_mut and r["func"] != "__init__":
+            if (r["func"].startswith("_") or is_mut) and r["func"] != "__init__":
                 continue                  # private helper: judged at its call sites (pass 2)
             if r["name"] in cfg["scalar_params"].get(f'{r["cls"]}.{r["func"]}', []):
                 continue
@@ -357,11 +538,63 @@ def main():
                    for r in table if r["verdict"] == "restored"})
     lines.append("def restores : List (String × Restore) := [\n" + ",\n".join(
         f'  ("{k}", .{f})' for k, f in rest) + "]\n")
+    # ---- compiled kernels: parameters, write sets, call sites -------------------------------
+    def b(x):
+        return "true" if x else "false"
+    kl = []
+    for key, k in sorted(kernels.items()):
+        ps = ", ".join(f'⟨"{q["name"]}", {b(q["array"])}, {b(q["written"])}, {b(q["returned"])}⟩'
+                       for q in k["params"])
+        kl.append(f'  ("{key}", [{ps}])')
+    lines.append("def kernels : List (String × List KParam) := [\n" + ",\n".join(kl) + "]\n")
+    cl = []
+    for c in sorted(kcalls, key=lambda c: (c["module"], c["line"])):
+        args = ", ".join(f'⟨"{a["param"]}", .{a["prov"]}, "{a["src"]}"⟩' for a in c["args"])
+        cl.append(f'  ⟨"{c["module"]}:{c["cls"]}.{c["func"]}:{c["line"]}", "{c["kernel"]}", [{args}]⟩')
+    lines.append("def kernelCalls : List KCall := [\n" + ",\n".join(cl) + "]\n")
+    # ---- constructors: fields bound to a caller argument itself (no copy) and every in-place
+    # edit of a field anywhere in the package (mutators included) ---------------------------
+    bases = {}
+    for mod, tree in mods.items():
+        for node in tree.body:
+            if isinstance(node, ast.ClassDef):
+                bases[node.name] = [ast.unparse(x).split(".")[-1] for x in node.bases]
+
+    def family(c):
+        """the class, its ancestors and its descendants (a field of an object of class c can be
+        edited by a method defined in any of them)"""
+        anc, todo = set(), [c]
+        while todo:
+            x = todo.pop()
+            if x in anc:
+                continue
+            anc.add(x)
+            todo += bases.get(x, [])
+        desc, grew = {c}, True
+        while grew:
+            grew = False
+            for k, bs in bases.items():
+                if k not in desc and any(x in desc for x in bs):
+                    desc.add(k)
+                    grew = True
+        return anc | desc
+    ctor_alias = [r for r in finits if r["prov"] == "arg" and r["cls"]]
+    field_edits = sorted({(r["cls"], r["name"]) for r in records if r["kind"] == "field"
+                          and r["verdict"] != "restored"})
+    al = []
+    for r in sorted(ctor_alias, key=lambda r: (r["module"], r["line"])):
+        fam = ", ".join(f'"{c}"' for c in sorted(family(r["cls"])))
+        al.append(f'  ⟨"{r["module"]}:{r["cls"]}.{r["func"]}", "{r["field"]}", "{r["src"]}", [{fam}]⟩')
+    lines.append("def ctorAliases : List CtorAlias := [\n" + ",\n".join(al) + "]\n")
+    lines.append("def fieldEdits : List (String × String) := [\n" + ",\n".join(
+        f'  ("{c}", "{f}")' for c, f in field_edits) + "]\n")
     lines.append("end Pyunicorn.Generated.StructC06")
     txt = "\n".join(lines) + "\n"
     if not os.path.exists(out_path) or open(out_path).read() != txt:
         open(out_path, "w").write(txt)
-    json.dump({"table": table, "all": records}, open(os.path.splitext(out_path)[0] + ".json", "w"),
+    json.dump({"table": table, "all": records, "kernels": kernels, "c_functions": cfuncs,
+               "kernel_calls": kcalls, "field_inits": finits, "ctor_aliases": ctor_alias,
+               "field_edits": field_edits, "to_cy_copies": TO_CY_FRESH[0]}, open(os.path.splitext(out_path)[0] + ".json", "w"),
               indent=1)
     return 0
 
